@@ -44,7 +44,7 @@ def same_type(obs, exp):
     return obs == exp
 
 
-def qualified(run, thorough):
+def qualified(run, thorough, process_sets=True):
     """process-qualified names: the member index and the substituted type of every P.x against the extracted model of expr_dot"""
     rng = run.rng
     stats = dict(qualified_uses=0, qualified_non_members=0, processes=0, chain_depths={})
@@ -95,6 +95,8 @@ def qualified(run, thorough):
                     continue
                 stats['qualified_uses'] += 1
                 obs = scopegen.dot_observed(tree) if tree else []
+                if m in scopegen.SHAPES:
+                    obs = [o for o in obs if o[1] == m]          # P.rs.f: the selection of the field f of the record is a DOT node too
                 if not obs:
                     run.fail('%s.%s is a member of the template but the query is rejected: %s' % (P['name'], m, errs[:1]), dict(xml=xml, query=text, lines=cm[:4]), shape='qualified:member-rejected')
                     continue
@@ -105,8 +107,9 @@ def qualified(run, thorough):
                     elif et is not None and not same_type(ot, et):
                         run.fail('%s.%s has type %s; with the arguments of %s substituted the declared type is %s' % (P['name'], m, ot, P['name'], et), dict(xml=xml, query=text, observed=ot, expected=et, mapping=[(names[s], scopegen.bshow(a, names)) for s, a in P['mapping']]),
                                  shape='qualified:wrong-type')
-    nps = scopegen.process_set_probes(run, vlib, rng, 60 if thorough else 16)
-    stats['process_set_queries'] = nps
+    if process_sets:
+        nps = scopegen.process_set_probes(run, vlib, rng, 60 if thorough else 16)
+        stats['process_set_queries'] = nps
     return stats
 
 
